@@ -541,17 +541,139 @@ def nonneg_proof(fld, env, ops, fn):
             for lhs, op in parts:
                 if lhs == e_flat and op == '<':
                     return None
-    if re.fullmatch(r'\*(\w+)\+\+ - \*(\w+)\+\+', e_flat):
-        # successive difference after sort(items, n): the two cursors walk the same sorted array one apart
+    m2 = re.fullmatch(r'\*(\w+)(?:\+\+)? - \*(\w+)(?:\+\+)?', e_flat)
+    if m2:
+        # successive difference after sort(items, n): the two cursors walk the same sorted array, the minuend's never behind
         srt = [c for c in fn.walk() if c.k == 'CallExpr' and (c.callee or '').endswith('sort')]
         node = fld['node']
         arm = next((x for x in node.ancestors() if x.k == 'IfStmt' and norm(x.child('cond').text()).endswith('.count > 0)')), None)
         if arm is not None and any(s_ in list(arm.walk()) and s_.pos < node.pos for s_ in srt):
-            c1, c0 = re.fullmatch(r'\*(\w+)\+\+ - \*(\w+)\+\+', e_flat).groups()
-            decl = {v.n: norm(v.child('init').text()) for v in arm.walk() if v.k == 'VarDecl' and v.child('init') is not None}
-            if decl.get(c1) == '(%s + 1)' % c0:
+            gap = cursor_gap(arm, node, m2.group(1), m2.group(2))
+            if gap is not None and gap >= 0:
                 return None
     return 'the unsigned-integer sink receives `%s`, which no enclosing guard shows to be non-negative (a negative value is cast to a huge unsigned number)' % e
+
+
+def cursor_gap(arm, node, hi, lo):
+    """hi - lo (in elements) when `node` is evaluated, for two pointer locals of `arm` that walk one array: the difference is
+    followed through declarations, assignments and increments in source order; the loop around `node` must restore it
+    (loop invariant). None when it cannot be established."""
+    def key(e):
+        e = _strip_casts(e)
+        while e is not None and e.k == 'ParenExpr':
+            e = _strip_casts(e.c[0])
+        return e.n if e is not None and e.k == 'DeclRefExpr' else None
+
+    def offset_of(e, base):
+        """e == base + k -> k"""
+        e = _strip_casts(e)
+        while e is not None and e.k == 'ParenExpr':
+            e = _strip_casts(e.c[0])
+        if e is None:
+            return None
+        if key(e) == base:
+            return 0
+        if e.k == 'BinaryOperator' and e.op in ('+', '-'):
+            l, r = e.child('lhs'), e.child('rhs')
+            if key(l) == base and _strip_casts(r).cv is not None:
+                return _strip_casts(r).cv if e.op == '+' else -_strip_casts(r).cv
+            if e.op == '+' and key(r) == base and _strip_casts(l).cv is not None:
+                return _strip_casts(l).cv
+        return None
+
+    class Unknown(Exception):
+        pass
+
+    def apply(x, d):
+        """effect of one write on d = hi - lo"""
+        if x.k == 'UnaryOperator' and x.op in ('++', 'post++', '--', 'post--'):
+            k = key(x.child('sub'))
+            step = 1 if '++' in x.op else -1
+            if k == hi:
+                return None if d is None else d + step
+            if k == lo:
+                return None if d is None else d - step
+            return d
+        tgt = src = None
+        if x.k == 'VarDecl' and x.n in (hi, lo):
+            tgt, src = x.n, x.child('init')
+        elif is_assign(x) and x.op == '=' and key(x.child('lhs')) in (hi, lo):
+            tgt, src = key(x.child('lhs')), x.child('rhs')
+        elif x.k == 'CompoundAssignOperator' and key(x.child('lhs')) in (hi, lo):
+            k = _strip_casts(x.child('rhs')).cv
+            if k is None or d is None or x.op not in ('+=', '-='):
+                return None
+            k = k if x.op == '+=' else -k
+            return d + k if key(x.child('lhs')) == hi else d - k
+        if tgt is None:
+            return d
+        other = lo if tgt == hi else hi
+        o = offset_of(src, other) if src is not None else None
+        if o is None:
+            return None
+        return o if tgt == hi else -o
+
+    def writes(st):
+        return [x for x in st.walk() if (x.k == 'UnaryOperator' and x.op in ('++', 'post++', '--', 'post--') and key(x.child('sub')) in (hi, lo))
+                or (x.k == 'VarDecl' and x.n in (hi, lo)) or ((is_assign(x) or x.k == 'CompoundAssignOperator') and key(x.child('lhs')) in (hi, lo))]
+
+    found = [None]
+
+    def seq(stmts, d):
+        for st in stmts:
+            if st is None:
+                continue
+            d = stmt(st, d)
+        return d
+
+    def stmt(st, d):
+        inside = any(n is node for n in st.walk())
+        if st.k == 'CompoundStmt':
+            return seq(st.c, d)
+        if st.k in ('ForStmt', 'WhileStmt', 'DoStmt'):
+            if st.child('init') is not None:
+                d = stmt(st.child('init'), d)
+            if not writes(st.child('body')) and not (st.child('inc') is not None and writes(st.child('inc'))):
+                if inside:
+                    found[0] = d
+                return d
+            d0 = d
+            d = stmt(st.child('body'), d0)
+            if st.child('inc') is not None:
+                for x in writes(st.child('inc')):
+                    d = apply(x, d)
+            if d != d0:
+                raise Unknown()          # not an invariant of the loop
+            return d0
+        if st.k in ('IfStmt', 'SwitchStmt'):
+            if inside:
+                # only the branch holding the node matters for the value at the node; the others must not disturb it
+                for part in ('then', 'else', 'body'):
+                    c = st.child(part)
+                    if c is not None and any(n is node for n in c.walk()):
+                        d_in = stmt(c, d)
+                        others = [st.child(p_) for p_ in ('then', 'else', 'body') if p_ != part and st.child(p_) is not None]
+                        if any(writes(o) for o in others) and any(stmt(o, d) != d_in for o in others):
+                            raise Unknown()
+                        return d_in
+            if writes(st):
+                raise Unknown()
+            return d
+        ws = writes(st)
+        if inside:
+            # post-increments leave the operand values of this evaluation untouched; anything else in the same statement does not
+            if any(not (x.k == 'UnaryOperator' and x.op.startswith('post')) for x in ws):
+                raise Unknown()
+            found[0] = d
+        for x in ws:
+            d = apply(x, d)
+        return d
+    try:
+        body = arm.child('then')
+        stmt(body, None)
+    except Unknown:
+        return None
+    return found[0]
 
 
 def check_path_extensions(ctx, db):
